@@ -266,7 +266,7 @@ where
             self.device.interface.write_register(tmp_int_config1)?;
         }
         if wkup_int_config0.bits() != tmp_wkup_int_config0.bits() {
-            self.device.interface.write_register(wkup_int_config0)?;
+            self.device.interface.write_register(tmp_wkup_int_config0)?;
         }
         // Write the config changes
         if self.device.config.int_pin_config.int1_map.bits() != self.config.int1_map.bits() {
